@@ -130,25 +130,29 @@ REACH = {
     # property: counters (in coverage.probes / faults_fired / operations) that must be > 0 after a quick run
     "C01": ["twin:fresh", "twin:relabel", "twin:self", "twin:detour", "twin:empty", "twin:has-isolated-atom", "twin_eq_checked"],
     "C02": ["pair:expected-False", "pair:expected-True", "pair:cross-class", "pair:variants", "mutant:element",
-            "mutant:add_bond", "mutant:flip", "mutant:role", "mutant:swap_ligands", "op:spec"],
+            "mutant:add_bond", "mutant:flip", "mutant:role", "mutant:swap_ligands", "op:spec",
+            "prelude:unspecified-sketch", "mutant:grouped-by-element", "bulk_graphs"],
     "C03": ["twin_hash_checked", "cross_hash_values_compared", "fault:F5:restart-hashseed-1", "fault:F5:restart-hashseed-4242"],
     "C05": ["enum_exhausted_checked", "enum_cancelled_checked", "enum_ge8_automorphisms", "enum_prefix_checked_above_bound",
-            "symnum_checked", "fault:F2:close", "fault:F2:throw", "fault:F2:drop", "fault:F3:clear-yielded", "fault:F3:mutate-yielded"],
-    "C06": ["enant:expected-False", "enant:expected-True", "op:enantiomer"],
+            "symnum_checked", "fault:F2:close", "fault:F2:throw", "fault:F2:drop", "fault:F3:clear-yielded", "fault:F3:mutate-yielded",
+            "fault:F3:edit-label-dict"],
+    "C06": ["enant:expected-False", "enant:expected-True", "op:enantiomer", "enant:equals-fresh-mirror"],
     "C08": ["from_graphs_observables_ok", "from_graphs:atom:ts=r=p", "from_graphs:atom:ts-differs-from-both", "from_graphs:atom:r=p",
             "from_graphs:atom:only-p", "from_graphs:atom:only-r", "from_graphs:atom:r!=p", "from_graphs:atom:r!=p:class-change",
             "from_graphs:with-ts", "from_graphs:without-ts", "op:reverse", "op:reactant", "op:product"],
     "C09": ["op:remove_atom", "op:relabel", "q:LOOKUP", "q:VAL", "bulk_graphs", "verdict:OK", "verdict:MUST", "verdict:MAY"],
     "C10": ["nontarget_snapshots", "op:copy", "op:ctor", "op:relabel", "op:subgraph", "op:compose", "op:enantiomer", "op:reverse",
-            "op:reactant", "op:product", "op:from_graphs", "op:deserialize", "isomers_checked"],
-    "C11": ["op:relabel", "twin:relabel", "bulk_graphs"],
-    "C15": ["roundtrip_equal_checked", "fault:F6:restore", "fault:F6:reencode"],
+            "op:reactant", "op:product", "op:from_graphs", "op:deserialize", "isomers_checked", "fault:F1:derivation:compose"],
+    "C11": ["op:relabel", "twin:relabel", "bulk_graphs", "fault:F3:mapping-dictionary-reused"],
+    "C15": ["roundtrip_equal_checked", "fault:F6:restore", "fault:F6:reencode", "fault:F6:damaged-text:class",
+            "fault:F6:damaged-text:short", "roundtrip_hash_vs_saved_object_checked"],
     "C16": ["pair:signature-differs", "flip:astereo", "flip:bstereo", "isomers_checked", "mutant:exchange", "fault:F3:edit-yielded-isomer"],
-    "C17": ["op:subgraph", "op:compose", "fault:F4:iterator", "fault:F4:generator", "bulk_graphs"],
+    "C17": ["op:subgraph", "op:compose", "fault:F4:iterator", "fault:F4:generator", "bulk_graphs", "fault:F1:derivation:compose"],
     "C19": ["fault:F1:unknown atom", "fault:F1:unknown bond", "fault:F1:self bond", "fault:F1:atom type is no element",
             "fault:F1:reaction label of the wrong type", "fault:F1:element attribute deleted", "fault:F1:several centres at once",
             "fault:F1:descriptor centred on unknown atom", "fault:F1:descriptor centred on unknown bond",
-            "fault:F1:change centred on unknown atom", "fault:F1:change centred on unknown bond", "fault:F1:lookup-absent"],
+            "fault:F1:change centred on unknown atom", "fault:F1:change centred on unknown bond", "fault:F1:lookup-absent",
+            "fault:noise:xyz"],
 }
 
 
